@@ -6,8 +6,9 @@ returned by pymbolic is evaluated by pymbolic.evaluate at the same point (with
 the real ``math`` module and ``log``) and must equal the dual derivative:
 exactly when both numbers are ints/Fractions, to 1e-9 relative / 1e-12
 absolute otherwise.  A float comparison that fails is adjudicated by
-repeating both evaluations in 60-digit decimal arithmetic (pbt.dual.HP): only
-a difference that survives there is reported.
+repeating both evaluations in 60-digit decimal arithmetic (pbt.dual.HP), and in
+240 digits if those still disagree: only a difference that survives there is
+reported.
 
 Sub-checks (same check function, same spec format)
   diff   Hypothesis-generated trees of the differentiable fragment x variable
@@ -35,7 +36,7 @@ import pymbolic
 import pymbolic.primitives as p
 from pymbolic.mapper.differentiator import DifferentiationMapper, differentiate
 
-from pbt import walk
+from pbt import dual, walk
 from pbt.dual import (DUAL_FUNCS, DUAL_MATH, HP, HP_FUNCS, HP_MATH, TRACE,
                       DomainSkip, Dual, HPUnsupported, split)
 from pbt.refsem import (RefError, RefEvaluator, RefSkip, _apply, _pow, describe,
@@ -65,8 +66,8 @@ ASSUMPTIONS = [
     "differentiation rules of + - * / ** and the elementary functions independently "
     "of pymbolic",
     "exact comparison for int/Fraction results; floats to 1e-9 relative / 1e-12 "
-    "absolute, a failing float comparison is re-evaluated in 60-digit decimal "
-    "arithmetic and only reported if it persists there",
+    "absolute, a failing float comparison is re-evaluated in 60-digit (then 240-digit) "
+    "decimal arithmetic and only reported if it persists there",
     "points where the reference is undefined, not finite (> 1e150), complex, needs a "
     "non-integer or non-constant power of a non-positive base, or lies within 1e-3 of "
     "a kink that depends on the differentiation variable are skipped and counted",
@@ -382,6 +383,16 @@ def _judge_point(e, dexpr, var, pt, strict=False):
                 f"{describe(want)}")
     if _close(got_hp[1], ref_hp[2], ABS if not strict else STRICT_ABS):
         return ("ok-adjudicated", "")
+    # 60 digits disagree: a derivative expression whose terms cancel exactly (the
+    # input does not really depend on the variable) times a factor like exp(130)
+    # is rounding noise even at 60 digits.  240 digits decide; a wrong derivative
+    # stays wrong at every precision.
+    with dual.precision(240):
+        ref_x = _reference(e, var, pt, True)
+        got_x = _evaluate(dexpr, pt, True)
+    if ref_x[0] == "val" and got_x[0] == "val" and _close(
+            got_x[1], ref_x[2], ABS if not strict else STRICT_ABS):
+        return ("ok-adjudicated", "240-digit")
     shown = got[1] if got[0] == "val" else got_hp[1]
     return ("mismatch", f"derivative evaluates to {describe(shown)}, dual-number "
                         f"derivative {describe(want)} (60-digit evaluation: "
@@ -1072,7 +1083,7 @@ MANIFEST = {
              "at generated points and compared with the derivative obtained by "
              "pushing forward-mode dual numbers through an independent reference "
              "interpreter on the input (exact over Fractions for the algebraic "
-             "part, 1e-9 relative otherwise with 60-digit adjudication of float "
+             "part, 1e-9 relative otherwise with 60/240-digit adjudication of float "
              "disagreements); refusals of non-smooth, unknown and non-differentiable "
              "constructs are compared with the allowed_nonsmoothness setting; an "
              "enumerated grid covers every two-operand construct over a pool of "
